@@ -154,16 +154,19 @@ def build_transactions(rng, net, network, secret):
 
 
 def gen_sign_cases(rng, count):
+	"""One key pair per case (every fifth key signs two transactions), alternating networks; a few special keys."""
 	cases = []
 	special = [bytes(32), bytes([255] * 32), bytes([1] + [0] * 31)]
+	keys = 0
 	while len(cases) < count:
-		net = 'sym' if len(cases) % 2 == 0 else 'nem'
+		net = 'sym' if keys % 2 == 0 else 'nem'
 		network = rng.choice(['mainnet', 'testnet'])
-		secret = special.pop() if special and rng.randrange(4) == 0 else rand_bytes(rng, 32)
+		secret = special.pop() if special and keys % 9 == 4 else rand_bytes(rng, 32)
 		transactions = build_transactions(rng, net, network, secret)
 		rng.shuffle(transactions)
-		for kind, data in transactions[:1 if len(cases) % 5 else 3]:
+		for kind, data in transactions[:2 if keys % 5 == 0 else 1]:
 			cases.append({'kind': 'sign', 'net': net, 'network': network, 'secret': secret.hex(), 'tx_kind': kind, 'tx': data.hex()})
+		keys += 1
 	return cases[:count]
 
 
@@ -325,7 +328,8 @@ def gen_verify_cases(rng, signed, count):
 			public = bytes.fromhex(rng.choice(SMALL_ORDER_KEYS))
 		elif what == 'sig-for-small-order-key':
 			# for the neutral element as key, (encode([s]B), s) satisfies the equation for every message
-			public = bytes.fromhex(SMALL_ORDER_KEYS[0])
+			# ... also through its non-canonical spellings (y = p + 1; x = 0 with the sign bit set), which permissive decoders reduce
+			public = bytes.fromhex(rng.choice([SMALL_ORDER_KEYS[0], SMALL_ORDER_KEYS[0], SMALL_ORDER_KEYS[5], '01' + '00' * 30 + '80']))
 			s_value = rng.randrange(1, L)
 			signature = edmodel.r_point_compress(edmodel.r_point_mul(s_value, edmodel.RG)) + s_value.to_bytes(32, 'little')
 		elif what == 'noncanonical-R':
